@@ -249,15 +249,21 @@ def writeto (fs : FS γ) (p : Path) (c : γ) : Except String (FS γ) :=
 
 end FS
 
-/-- `numpy_array_2d_to_fits` / `numpy_array_1d_to_fits` (after repair D12), `c` = the HDU file written:
+/-- first statement pair of `numpy_array_*_to_fits` (after repair D12):
       file_dir = os.path.split(file_path)[0]
-      if file_dir and not os.path.exists(file_dir): os.makedirs(file_dir)
-      if overwrite and os.path.exists(file_path): os.remove(file_path)
-      hdu.writeto(file_path)                                                        -/
+      if file_dir and not os.path.exists(file_dir): os.makedirs(file_dir)                     -/
+def ensureDir (fs : FS γ) (p : Path) : Except String (FS γ) :=
+  if p.dropLast != [] && !fs.pathExists p.dropLast then fs.makedirs p.dropLast else pure fs
+
+/--   if overwrite and os.path.exists(file_path): os.remove(file_path)                        -/
+def clearTarget (fs : FS γ) (p : Path) (overwrite : Bool) : Except String (FS γ) :=
+  if overwrite && fs.pathExists p then fs.remove p else pure fs
+
+/-- `numpy_array_2d_to_fits` / `numpy_array_1d_to_fits`, `c` = the HDU file written:
+      <ensureDir>; <clearTarget>; hdu.writeto(file_path)                                      -/
 def output (fs : FS γ) (p : Path) (overwrite : Bool) (c : γ) : Except String (FS γ) := do
-  let dir := p.dropLast
-  let fs1 ← if dir != [] && !fs.pathExists dir then fs.makedirs dir else pure fs
-  let fs2 ← if overwrite && fs1.pathExists p then fs1.remove p else pure fs1
+  let fs1 ← ensureDir fs p
+  let fs2 ← clearTarget fs1 p overwrite
   fs2.writeto p c
 
 /-- a history of `output_to_fits` calls: the outcome of each call (`none` = success, `some kind` =
